@@ -58,6 +58,10 @@ thread_local! {
 
 pub const GROW_MSG: &str = "verif: commit would grow the file while a reader is open on this thread";
 
+pub fn forbid_grow(on: bool) {
+    FORBID_GROW.with(|f| f.set(on));
+}
+
 pub fn install_no_grow_handler() {
     jammdb::verif_hooks::set_handler(Some(std::sync::Arc::new(|p, _w| {
         if p == jammdb::verif_hooks::Point::CommitBeforeGrow && FORBID_GROW.with(|f| f.get()) {
